@@ -549,10 +549,7 @@ struct Fail {
 
 /// failure classes that are recorded findings; anything else is reported first
 const RECORDED: &[&str] = &[
-    "entry-renamed",
-    "msl-name-renamed",
     "unsized-array-unbound",
-    "static-object-bound",
     "nested-array-unbound",
     "struct-resource-unbound",
     "numthreads-ambiguous",
@@ -1010,8 +1007,11 @@ fn run_case(case: &Case, tgt: Tgt, mode: &Mode, out: &mut Out, hist: &mut Hist) 
         }
         Raw::Panic(p) => {
             hist.add("outcome=panic");
-            // a panic is a C08 matter; it is reported here only as skipped input
-            out.case(&req, &format!("panic:{}", p), "SKIP:panic (C08)");
+            // a panic is a C08 matter; it is reported here only as skipped input -- except a panic of the pipeline
+            // driver itself (src/compile.rs): the model, which follows that file, predicts an answer for the request,
+            // so the case is compared (and disagrees)
+            let driver = p.contains("src/compile.rs");
+            out.case(&req, &format!("panic:{}", p), if driver { "ok" } else { "SKIP:panic (C08)" });
         }
         Raw::Ok(ps) => {
             hist.add("outcome=ok");
@@ -1217,6 +1217,10 @@ fn mutate(case: &mut Case, rng: &mut Rng, hist: &mut Hist) {
         if st == "Compute" && rng.chance(1, 30) {
             e.threads = None;
         }
+        // sizes beyond 16 bits, and a zero
+        if st == "Compute" && rng.chance(1, 20) {
+            e.threads = Some((65536 + rng.below(1000) as u32, rng.below(3) as u32, 1 + rng.below(70000) as u32));
+        }
         if (st == "Vertex" || st == "Pixel") && rng.chance(1, 30) {
             e.threads = Some((4, 2, 1));
         }
@@ -1236,6 +1240,12 @@ fn mutate(case: &mut Case, rng: &mut Rng, hist: &mut Hist) {
         if p.dflt.is_some() && rng.chance(1, 3) {
             p.dexpr = true;
         }
+    }
+    // a pipeline whose name is a prefix of another pipeline's name (selection by name must be exact)
+    if case.pipes.len() >= 2 && rng.chance(1, 6) {
+        let n = format!("{}0", case.pipes[0].name);
+        case.pipes[1].name = n;
+        hist.add("variant=pipeline-name-prefix");
     }
     // files the front end refuses (the model predicts the error class; nothing to judge)
     if !case.pipes.is_empty() && rng.chance(1, 12) {
